@@ -54,6 +54,17 @@ SymbolicDispatch(x1, x2, za, zb, ze) ==
     ELSE IF x1 = "short" \/ x2 = "short" THEN "eq19"
     ELSE "eq16"
 
+\* Which sub-circuits the symbolic expression of a configuration mentions (C20: one variable per parameter).
+\* Every finite sub-circuit the dispatched equation reads, with one named deviation: with both phases
+\* finite and both boundaries short, eq. 16 collapses to L*X_1*X_2/(X_1+X_2) - the interfacial impedance
+\* cancels from the numeric impedance as well, so no variable of Zeta can appear.
+Roles == <<"X_1", "X_2", "Z_A", "Z_B", "Zeta">>
+TlmMentions(c) ==
+    LET st == <<c.x1, c.x2, c.za, c.zb, c.ze>>
+        finite == {Roles[k] : k \in {j \in 1..5 : st[j] = "fin"}}
+    IN IF NumericDispatch(c.x1, c.x2, c.za, c.zb, c.ze) = "eq16" /\ c.za = "short" /\ c.zb = "short"
+       THEN finite \ {"Zeta"} ELSE finite
+
 TlmConfigs == [part : {"tlm"}, x1 : St, x2 : St, za : St, zb : St, ze : St, fin : {"R", "RC", "(RC)"}]
 
 \* ---- 2. scatter ------------------------------------------------------------------
@@ -78,7 +89,7 @@ Configs == CASE Part = "tlm" -> TlmConfigs [] Part = "scatter" -> ScatterConfigs
 
 Init ==
     /\ cfg \in Configs
-    /\ expect = IF Part = "tlm" THEN <<NumericDispatch(cfg.x1, cfg.x2, cfg.za, cfg.zb, cfg.ze)>>
+    /\ expect = IF Part = "tlm" THEN <<NumericDispatch(cfg.x1, cfg.x2, cfg.za, cfg.zb, cfg.ze), TlmMentions(cfg)>>
                 ELSE IF Part = "scatter" THEN Scatter(cfg.fs) ELSE <<>>
 Next == FALSE /\ UNCHANGED vars
 Spec == Init /\ [][Next]_vars
